@@ -505,6 +505,56 @@ theorem C09_legacy_xor_shortcut_witness :
 example : (logicalXor [intA, dottedA] {} 0).isOk = false ∧ (logicalXor [dottedA, intA] {} 0).isOk = false
     ∧ (logicalXor [strA, slugA] {} 0).isOk = false := by decide
 
+/-! ### the laws hold at every node of every combinator tree (arguments may be combinators themselves) -/
+
+theorem evalArgs_eq_map (L : Leaves V) (as : List Ty) : evalArgs L as = as.map (evalTy L) := by
+  induction as with
+  | nil => simp [evalArgs]
+  | cons a as ih => simp [evalArgs, ih]
+
+/-- For every tree, every leaf behaviour: an exclusive-or node accepts exactly when one and only one of its
+sub-trees accepts the input, whatever the order in which they were written. -/
+theorem C09_tree_xor (L : Leaves V) (as : List Ty) (u : Nat) (o : Opts) (v : V) (hne : as ≠ []) :
+    ((evalTy L (.comb .one as u)).run o v).isOk = true ↔
+      (as.countP fun a => (evalTy L a).accepts o v) = 1 := by
+  have : (evalTy L (.comb .one as u)).run = logicalXor (as.map (evalTy L)) := by
+    simp [evalTy, evalArgs_eq_map]
+  rw [this, C09_xor_exactly_one _ o v (by simpa using hne), List.countP_map]
+  rfl
+
+theorem C09_tree_xor_perm (L : Leaves V) (as as' : List Ty) (u u' : Nat) (o : Opts) (v : V) (hp : as.Perm as') :
+    ((evalTy L (.comb .one as u)).run o v).toOption = ((evalTy L (.comb .one as' u')).run o v).toOption := by
+  have h1 : (evalTy L (.comb .one as u)).run = logicalXor (as.map (evalTy L)) := by
+    simp [evalTy, evalArgs_eq_map]
+  have h2 : (evalTy L (.comb .one as' u')).run = logicalXor (as'.map (evalTy L)) := by
+    simp [evalTy, evalArgs_eq_map]
+  rw [h1, h2]
+  exact C09_xor_perm _ _ o v (hp.map _)
+
+/-- a negation node accepts exactly when its sub-tree rejects, and returns the input -/
+theorem C09_tree_neg (L : Leaves V) (a : Ty) (u : Nat) (o : Opts) (v r : V) :
+    (evalTy L (.comb .neg [a] u)).run o v = .ok r ↔ ((evalTy L a).accepts o v = false ∧ r = v) := by
+  have : (evalTy L (.comb .neg [a] u)).run = logicalNeg [evalTy L a] := by
+    simp [evalTy, evalArgs]
+  rw [this]
+  exact C09_neg _ [] o v r
+
+/-- a conjunction node applies its sub-trees in order to the running value -/
+theorem C09_tree_all (L : Leaves V) (as : List Ty) (u : Nat) (o : Opts) (v : V) :
+    ((evalTy L (.comb .all as u)).run o v).toOption = (allSpec (as.map (evalTy L)) o v).toOption := by
+  have : (evalTy L (.comb .all as u)).run = logicalAll (as.map (evalTy L)) := by
+    simp [evalTy, evalArgs_eq_map]
+  rw [this]
+  exact C09_all_fold _ o v
+
+/-- a union node returns what `unionSpec` says of its sub-trees -/
+theorem C09_tree_union (L : Leaves V) (as : List Ty) (u : Nat) (o : Opts) (v : V) (hne : as ≠ []) :
+    ((evalTy L (.comb .any as u)).run o v).toOption = unionSpec (as.map (evalTy L)) o v := by
+  have : (evalTy L (.comb .any as u)).run = logicalUnion (as.map (evalTy L)) := by
+    simp [evalTy, evalArgs_eq_map]
+  rw [this]
+  exact C09_union_refines _ o v (by simpa using hne)
+
 /-! ## Part B — construction obeys the algebra users rely on -/
 
 /-- Double negation cancels: `~~t` is `t` itself (the same object) for every utype type that is not itself a
@@ -580,6 +630,10 @@ theorem C09_combine_dup_absorbed_partial (op : Comb) (u : Nat) (xs ys zs : List 
       exact combineLoop_index op u zs acc2 _ _ hz
   unfold combine
   rw [key]
+
+/-- the hypotheses are satisfiable, and the conclusion is not trivial (an operand really disappears) -/
+example : (Ty.rule 1).parsed = true ∧ (∀ a ∈ [Ty.cls 2], a.parsed = true) ∧
+    (combine .one 0 ([.alias 7] ++ .rule 1 :: [.dc 3] ++ .rule 1 :: [.cls 2])).args.length = 4 := by decide
 
 /-- Any is absorbed: a union or exclusive-or with `Any` among its operands is `Rule` (accepts anything) … -/
 theorem C09_combine_any_absorbs (op : Comb) (hop : op = .any ∨ op = .one) (u : Nat) (args : List Ty)
